@@ -492,9 +492,8 @@ func (l *SimLN) Recover(n *Node, payreq string) (string, error) {
 	}
 	for _, p := range ps {
 		if p.State == "pending" {
-			if n.Flavor == "lnd" {
-				return "", errors.New("claim payment did not succeed: IN_FLIGHT")
-			}
+			// CLN: waitsendpay; LND: TrackPaymentV2 with NoInflightUpdates streams
+			// only the final update, so the first Recv blocks until the fate is known
 			p.Done.Wait("ln.recoverwait")
 			n.checkAlive()
 			if p.State == "settled" {
